@@ -1375,7 +1375,7 @@ impl ProofBuilder {
             .parse::<i32>()
             .map_err(|_| err_msg!("Value by key '{}' has invalid format", predicate.attr_name))?;
 
-        let delta = predicate.get_delta(attr_value);
+        let delta = predicate.get_delta_wide(attr_value);
 
         if delta < 0 {
             return Err(err_msg!("Predicate is not satisfied"));
